@@ -453,3 +453,26 @@ Proof.
   rewrite app_assoc. replace (length p + length r) with (length (p ++ r)) by apply app_length.
   rewrite skipn_app, skipn_all, Nat.sub_diag. reflexivity.
 Qed.
+
+(* `np.all(a == b)` on int arrays: under the length test it is equality of the two arrays *)
+Lemma zall_eq_spec (a b : list Z) : length a = length b -> (zall_eq a b = true <-> a = b).
+Proof.
+  unfold zall_eq. revert b. induction a as [|i a IH]; intros [|j b] L; try discriminate; [split; reflexivity|].
+  cbn [combine forallb fst snd]. rewrite andb_true_iff, Z.eqb_eq, (IH b) by (cbn in L; lia).
+  split; [intros [-> ->]; reflexivity|intros H; injection H; auto].
+Qed.
+Lemma zall_eq_len_iff (a b : list Z) : (zlen a =? zlen b)%Z && zall_eq a b = true <-> a = b.
+Proof.
+  split.
+  - intros H. apply andb_true_iff in H. destruct H as [H1 H2]. apply Z.eqb_eq in H1. unfold zlen in H1.
+    apply zall_eq_spec; [lia|exact H2].
+  - intros ->. rewrite Z.eqb_refl. apply zall_eq_spec; reflexivity.
+Qed.
+
+(* `for v in a: acc += h(v)` *)
+Lemma for_each_fold {A S : Type} (l : list A) (f : A -> S -> S) (s : S) : for_each l f s = fold_left (fun s a => f a s) l s.
+Proof. reflexivity. Qed.
+Lemma for_each_acc (N : Num) (h : N -> N) (l : list N) (s : N) :
+  for_each l (fun v acc => add N acc (h v)) s = fold_left (add N) (map h l) s.
+Proof. unfold for_each. rewrite fold_left_map. reflexivity. Qed.
+
